@@ -79,10 +79,11 @@ theorem C16_no_collision_after_adopt (store : Store) (m1 m2 : Int) (df : Nat →
     ((Core.ofAdopted a m1 m2 q1 q2).run ops).Inv :=
   Core.run_inv _ (C16_adopt_inv store m1 m2 df a h q1 q2 hq1 hq2) ops
 
-/-- A record that fails the integrity check is never adopted: `decodeValue`
-errors lead to the delete-and-warn branch, the key joins none of the lists. -/
+/-- A record that fails the integrity check is never adopted, and it never passes unnoticed: `decodeValue` errors lead
+to the delete-and-warn branch, the key joins none of the lists. This holds for every record but the client identifier:
+outbound records and the markers of the receive side alike (F15). -/
 theorem C16_corrupt_never_classified (df : Nat → Bool) (key : Nat) (rest : List Nat) (c : Classified) (raw : Bytes)
-    (hk : (key == Facts.clientIDKey || key / Facts.remoteIDKeyFlag % 2 == 1) = false)
+    (hk : (key == Facts.clientIDKey) = false)
     (hget : c.store.get key = some raw) (hbad : ∃ e, decodeValue raw = .error e) :
     classify df (key :: rest) c =
       (if df key then classify df rest { c with warns := c.warns ++ [.corruptKept key] }
@@ -90,6 +91,53 @@ theorem C16_corrupt_never_classified (df : Nat → Bool) (key : Nat) (rest : Lis
   obtain ⟨e, he⟩ := hbad
   rw [classify]
   simp only [hk, Bool.false_eq_true, if_false, hget, he]
+
+/-- warnings only grow along the classification -/
+theorem classify_warns_mono (df : Nat → Bool) (keys : List Nat) (c : Classified) (w : Warn) (h : w ∈ c.warns) :
+    w ∈ (classify df keys c).warns := by
+  induction keys generalizing c with
+  | nil => simpa [classify] using h
+  | cons key rest ih =>
+    rw [classify]
+    repeat' (first | split | dsimp only)
+    all_goals first
+      | exact ih _ h
+      | exact ih _ (by simp [h])
+      | exact h
+
+/-- Every listed record (but the identifier) that fails the integrity check is named in a warning, wherever it stands in
+the listing and whatever else is damaged - unless the scan stops at an intact record without content (which the real
+code turns into a panic; that needs a forged checksum, outside the property). -/
+theorem C16_every_corrupt_record_warned (df : Nat → Bool) (keys : List Nat) (key : Nat) (raw : Bytes)
+    (hk : (key == Facts.clientIDKey) = false) (hbad : ∃ e, decodeValue raw = .error e) :
+    ∀ (c : Classified), key ∈ keys → keys.Nodup → c.store.get key = some raw →
+      (classify df keys c).panic = true ∨
+      Warn.corruptDeleted key ∈ (classify df keys c).warns ∨ Warn.corruptKept key ∈ (classify df keys c).warns := by
+  induction keys with
+  | nil => intro c h; simp at h
+  | cons k rest ih =>
+    intro c hmem hnd hget
+    have hnd' := List.nodup_cons.mp hnd
+    rcases List.mem_cons.mp hmem with h | h
+    · subst h
+      rw [C16_corrupt_never_classified df key rest c raw hk hget hbad]
+      right
+      split
+      · exact Or.inr (classify_warns_mono _ _ _ _ (by simp))
+      · exact Or.inl (classify_warns_mono _ _ _ _ (by simp))
+    · have hne : key ≠ k := fun e => hnd'.1 (e ▸ h)
+      rw [classify]
+      repeat' (first | split | dsimp only)
+      all_goals first
+        | exact ih _ h hnd'.2 hget
+        | exact ih _ h hnd'.2 (by show (c.store.erase k).get key = some raw; rw [Store.get_erase_other _ hne]; exact hget)
+        | exact Or.inl rfl
+
+/-- Known finding F15b, stated on the model: the record of the client identifier is passed over whatever it holds, so
+`C16_every_corrupt_record_warned` cannot be extended to it (its hypothesis `key ≠ clientIDKey` is needed). -/
+theorem C16_known_F15b_identifier_unchecked (df : Nat → Bool) (rest : List Nat) (c : Classified) :
+    classify df (Facts.clientIDKey :: rest) c = classify df rest c := by
+  rw [classify]; simp
 
 /-! ## Non-vacuity: F10's store (PUBREL, hole, PUBLISH) and a wrapped window -/
 example : (cleanSeq [0xc000, 0xc002]).1 = [0xc002] := by decide
